@@ -39,6 +39,19 @@ FlattenMod(m, base) ==
 
 Entries(tree) == FlattenMod(tree, 1).entries
 
+(* import precedence of every module of the tree (same numbering as FlattenMod): module id -> precedence *)
+RECURSIVE ModPrecsFrom(_, _), ModPrecsImports(_, _, _)
+ModPrecsImports(imps, k, base) ==        \* [map (set of <<id, prec>>), next]
+  IF k > Len(imps) THEN [map |-> {}, next |-> base]
+  ELSE LET r == ModPrecsFrom(imps[k], base)
+           r2 == ModPrecsImports(imps, k + 1, r.next) IN
+       [map |-> r.map \cup r2.map, next |-> r2.next]
+ModPrecsFrom(m, base) ==
+  LET r == ModPrecsImports(m.imports, 1, base) IN
+  [map |-> r.map \cup {<<m.id, r.next>>}, next |-> r.next + 1]
+ModPrecs(tree) == LET mp == ModPrecsFrom(tree, 1).map IN
+                  [id \in {x[1] : x \in mp} |-> (CHOOSE x \in mp : x[1] = id)[2]]
+
 (* e1 is preferred to e2: higher import precedence, then higher priority, then later position *)
 Preferred(e1, e2) == \/ e1.prec > e2.prec
                      \/ e1.prec = e2.prec /\ NumLt(e2.prio, e1.prio)
